@@ -10,7 +10,7 @@ PLAN = {
                             'small-scope enumeration against brute-force maximum matching (bounded stand-in, the property\'s own quantifier: all graphs up to 4x5) and are '
                             'NOT counted as proved. Discharged deductively: the circular-distance tolerance predicate, and - in the evidence of C01/C04/C06/C07/C08 - every '
                             'caller against the matcher contract "valid maximum matching of the stated predicate".'),
-    'C06': dict(level='proof', engines=['forward', 'segnative', 'tasknative', 'matchnative', 'chordevalnative']),
+    'C06': dict(level='proof', engines=['forward', 'segnative', 'tasknative', 'matchnative', 'chordevalnative', 'hiernative']),
     'C07': dict(level='proof', engines=['tasknative', 'matchnative', 'beatstruct', 'multipitchnative']),
     'C08': dict(level='proof', engines=['segnative', 'tasknative', 'multipitchnative', 'matchnative', 'chordevalnative']),
     'C09': dict(level='proof', engines=['chordnative', 'keynative', 'tasknative', 'chordevalnative']),
